@@ -271,8 +271,38 @@ func init() {
 	}
 	// fmt / log: formatting is never the subject
 	sprintf := func(ex *Exec, c *frame, fn *ssa.Function, a []Value) Value {
-		if f, ok := a[0].(string); ok && !strings.Contains(f, "%") {
+		f, ok := a[0].(string)
+		if ok && !strings.Contains(f, "%") {
 			return f
+		}
+		// concrete format and concrete scalar arguments: format for real
+		if ok && len(a) > 1 {
+			if sl, isSl := a[1].(Slice); isSl {
+				args := make([]interface{}, 0, sl.Len)
+				all := true
+				for i := 0; i < sl.Len && all; i++ {
+					iv, isI := sl.Arr.E[sl.Off+i].V.(Iface)
+					if !isI {
+						all = false
+						break
+					}
+					switch v := iv.V.(type) {
+					case string, bool, float64:
+						args = append(args, v)
+					case int64:
+						args = append(args, v)
+					default:
+						if iv.T == nil {
+							args = append(args, nil)
+						} else {
+							all = false
+						}
+					}
+				}
+				if all {
+					return fmt.Sprintf(f, args...)
+				}
+			}
 		}
 		return ex.freshString("fmt")
 	}
